@@ -441,6 +441,28 @@ theorem C14_relative_without_zone (date : Dur) (norm destNs : Int) (dt : IsoDate
     totalRelativeDurationZ none date norm destNs dt u = totalRelativeDuration date norm destNs dt u :=
   ⟨roundRelativeDurationZ_none date norm destNs dt o, totalRelativeDurationZ_none date norm destNs dt u⟩
 
+/-- **C14 (differences across time zones)**: when the other value lives in another time zone, `until` / `since` with a
+    date largest unit are a RangeError - whatever the two instants, equal ones included - and with a time largest unit
+    they are the exact difference of the instants, the zones playing no part; in one zone the zoned difference. Option
+    errors come first in every case. -/
+theorem C14_until_across_zones (since : Bool) (tz : TZ) (ns1 ns2 : Int) (raw : RawOptions) (o : Resolved)
+    (ho : fromDiffSettings raw since .dateTime .hour .nanosecond = .ok o) :
+    (o.largest.isTimeUnit = false → zdtDiffFullZ since tz false ns1 ns2 raw = .err .range) ∧
+    (o.largest.isTimeUnit = true → zdtDiffFullZ since tz false ns1 ns2 raw = zdtDiffTime since ns1 ns2 o) ∧
+    zdtDiffFullZ since tz true ns1 ns2 raw = zdtDiffFull since tz ns1 ns2 raw := by
+  refine ⟨?_, ?_, ?_⟩
+  · intro h; unfold zdtDiffFullZ; simp [ho, h]
+  · intro h; unfold zdtDiffFullZ; simp [ho, h]
+  · unfold zdtDiffFullZ
+    by_cases h : o.largest.isTimeUnit = true
+    · unfold zdtDiffFull; simp [ho, h]
+    · simp [ho, h]
+
+theorem C14_until_across_zones_option_errors (since : Bool) (tz : TZ) (same : Bool) (ns1 ns2 : Int) (raw : RawOptions)
+    (k : ErrKind) (ho : fromDiffSettings raw since .dateTime .hour .nanosecond = .err k) :
+    zdtDiffFullZ since tz same ns1 ns2 raw = .err k := by
+  unfold zdtDiffFullZ; simp [ho]
+
 end TemporalModel
 
 #print axioms TemporalModel.C14_add_time_exact
@@ -455,3 +477,5 @@ end TemporalModel
 #print axioms TemporalModel.C14_until_rounded_reaches_other
 #print axioms TemporalModel.C14_add_until_inverse
 #print axioms TemporalModel.C14_zoned_calendar_nudge
+#print axioms TemporalModel.C14_until_across_zones
+#print axioms TemporalModel.C14_until_across_zones_option_errors
